@@ -2,7 +2,9 @@
 //
 //	cause binary <t> <hex>        thrift.Binary.Skip
 //	cause br     <t> <hex> <src>  thrift.BufferReader.Skip over a bytes reader ("b<cap>") or a
-//	                              DefaultReader over a scripted source (injected errors src1..3 / EOF)
+//	                              DefaultReader over a scripted source (injected errors src1..3 / EOF /
+//	                              src9 = an error that wraps a protocol exception)
+//	                              result on failure: err <e> is=<source errors errors.Is still finds>
 //
 // Results are canonicalised by lib.ErrStr: pe<typeId> for a protocol exception without cause,
 // pe0(<inner>) for NewProtocolExceptionWithErr(inner), the bare name for an unwrapped error.
@@ -10,8 +12,11 @@ package main
 
 import (
 	"encoding/binary"
+	"errors"
 	"fmt"
+	"io"
 	"strconv"
+	"strings"
 
 	"github.com/cloudwego/gopkg/bufiox"
 	"github.com/cloudwego/gopkg/protocol/thrift"
@@ -32,6 +37,76 @@ func runBinary(t int, b []byte) string {
 	})
 }
 
+// errWrapPE: injected source error number 9 — a transport-style error that WRAPS a protocol exception.
+// It is not itself a *ProtocolException, so NewProtocolExceptionWithErr must wrap it (type id 0) and
+// errors.Is(err, errWrapPE) must still hold.
+var errWrapPE = fmt.Errorf("read tcp: %w", thrift.NewProtocolException(thrift.INVALID_DATA, "inner"))
+
+func injErr(k int) error {
+	if k == 9 {
+		return errWrapPE
+	}
+	return lib.InjErr(k)
+}
+
+// causeSource: lib.Source with the family's own error class 9
+type causeSource struct {
+	Stream []byte
+	Script lib.Script
+	Pos    int
+}
+
+func (s *causeSource) Read(p []byte) (int, error) {
+	if len(s.Script) == 0 {
+		return 0, injErr(0)
+	}
+	r := s.Script[0]
+	s.Script = s.Script[1:]
+	k := r.K
+	if k > len(p) {
+		k = len(p)
+	}
+	if k > len(s.Stream)-s.Pos {
+		k = len(s.Stream) - s.Pos
+	}
+	copy(p, s.Stream[s.Pos:s.Pos+k])
+	s.Pos += k
+	if r.Err >= 0 {
+		return k, injErr(r.Err)
+	}
+	return k, nil
+}
+
+// errStr: lib.ErrStr, with source error 9 printed by name (directly, or as the Unwrap() of an exception)
+func errStr(err error) string {
+	if err == errWrapPE {
+		return "src9"
+	}
+	if pe, ok := err.(*thrift.ProtocolException); ok && pe.Unwrap() == errWrapPE {
+		return fmt.Sprintf("pe%d(src9)", pe.TypeId())
+	}
+	return lib.ErrStr(err)
+}
+
+// isObs: the errors.Is observation — which of the source's error values the returned error still
+// matches, in a fixed order ("-" = none)
+func isObs(err error) string {
+	var hit []string
+	for _, c := range []struct {
+		name string
+		e    error
+	}{{"src9", errWrapPE}, {"src1", lib.InjErr(1)}, {"src2", lib.InjErr(2)}, {"src3", lib.InjErr(3)},
+		{"eof", io.EOF}, {"noprogress", io.ErrNoProgress}} {
+		if errors.Is(err, c.e) {
+			hit = append(hit, c.name)
+		}
+	}
+	if len(hit) == 0 {
+		return "-"
+	}
+	return strings.Join(hit, "+")
+}
+
 func runBR(t int, b []byte, src string) string {
 	return lib.Guard(func() string {
 		var r bufiox.Reader
@@ -41,18 +116,21 @@ func runBR(t int, b []byte, src string) string {
 			copy(buf, b)
 			r = bufiox.NewBytesReader(buf)
 		} else {
-			r = bufiox.NewDefaultReader(lib.NewSource(b, lib.ParseScript(src)))
+			r = bufiox.NewDefaultReader(&causeSource{Stream: b, Script: lib.ParseScript(src)})
 		}
 		br := thrift.NewBufferReader(r)
 		err := br.Skip(thrift.TType(int8(t)))
 		if err != nil {
-			return "err " + lib.ErrStr(err)
+			return "err " + errStr(err) + " is=" + isObs(err)
 		}
 		return fmt.Sprintf("ok %d", br.Readn())
 	})
 }
 
 func kind(res string) string {
+	if i := strings.Index(res, " is="); i >= 0 {
+		res = res[:i]
+	}
 	for i := 0; i < len(res); i++ {
 		if res[i] == ' ' {
 			if res[:i] == "ok" {
@@ -141,7 +219,7 @@ func faults(r *lib.Rng, class string, t int, b []byte, maxPos int) {
 		if n > maxPos {
 			p = r.Intn(n)
 		}
-		e := r.Pick(0, 1, 2, 3)
+		e := r.Pick(0, 1, 2, 3, 9)
 		em.Count(fmt.Sprintf("inject:e%d", e))
 		emitBR(class, t, b, injectAt(r, p, e).String())
 	}
